@@ -114,7 +114,7 @@ def copt(x, f=str) -> str:
 
 
 def cstr(s: str) -> str:
-    assert all(32 <= ord(ch) < 127 for ch in s), s
+    assert all(32 <= ord(ch) < 127 or ch in '\n\t' for ch in s), s
     return '"' + s.replace('"', '""') + '"%string'
 
 
